@@ -53,7 +53,12 @@ class CacheWorld(object):
     self.settings = w.settings
     self.cache = w.cache_mod.MetricCache()
     self.strategy = self.settings.CACHE_WRITE_STRATEGY
-    self.hard_max = self.settings.CACHE_SIZE_HARD_MAX
+    # limits as the documentation states them (MAX_CACHE_SIZE, 105% of it under flow
+    # control, resume below 95%), not read back from the code under test
+    cs = w.cfg['settings']
+    mx = cs.get('MAX_CACHE_SIZE', float('inf'))
+    self.hard_max = mx * 1.05 if cs.get('USE_FLOW_CONTROL', True) else mx
+    self.low_wm = mx * 0.95
     self.model = RefCache(self.hard_max)
     self.curop = {}            # thread -> Op
     self.conns = []
@@ -73,6 +78,7 @@ class CacheWorld(object):
     self.ndrains = 0
     self.final_phase = False
     self.db_seq = {}
+    self.lag_changed = False
 
   # ------------------------------------------------------------------ set-up
   def install(self):
@@ -85,6 +91,8 @@ class CacheWorld(object):
     s.finish = self.finish
     s.p_lock = self.plan.get('p_lock')
     s.file_p = dict(self.plan.get('file_p') or {})
+    for pat, pp in (self.plan.get('hot') or []):
+      s.heat(pat, pp)
     lock = self.cache.lock
     lock.on_acquire = self.on_acquire
     lock.on_release = self.on_release
@@ -250,6 +258,12 @@ class CacheWorld(object):
       elif op.popped[0] != metric or list(dps) != (op.popped[1] or []):
         self.ctx.violation('C02', 'drain-mismatch', 'drain_metric',
                            'drain returned (%r, %r); model expected %r' % (metric, dps, op.popped))
+        gone = [x for x in (op.popped[1] or []) if x not in list(dps)]
+        if gone:
+          self.ctx.violation('C03', 'taken-from-cache-but-not-handed-to-writer', 'drain_metric',
+                             'datapoints %r left the cache with the batch for %r but are not in the '
+                             'batch the writer received (%r): they can be neither written nor '
+                             'accounted for' % (gone, op.popped[0], dps))
       tss = [x[0] for x in dps]
       if any(b <= a for a, b in zip(tss, tss[1:])):
         self.ctx.violation('C02', 'drain-unsorted', 'drain_metric',
@@ -379,6 +393,8 @@ class CacheWorld(object):
                            '%s drained %r holding %d points at its choose point while the maximum '
                            'was %d (%r)' % (strat, metric, got, mx, counts))
     lag = self.lag_at_choose(ch)
+    if self.lag_changed:
+      return
     if strat == 'timesorted' and lag and dps:
       oldest = ch['oldest'].get(metric)
       if oldest is not None and not (ch['now'] - oldest > lag):
@@ -538,6 +554,14 @@ class CacheWorld(object):
       from . import boot
       boot.write_file(op[1], op[2], int(self.s.now) + 1)
       self.ctx.fault('config_file_rewrite')
+    elif k == 'setlag':
+      if self.settings.MIN_TIMESTAMP_LAG != op[1]:
+        # the strategy samples the lag when a pass begins; with the lag changing under
+        # it the per-pass clauses are not defined -- only completeness (with the lag
+        # finally in force) is judged from here on
+        self.lag_changed = True
+      self.settings.MIN_TIMESTAMP_LAG = op[1]
+      self.ctx.probe('lag_changed_at_run_time')
     elif k == 'stop':
       self.do_stop()
     elif k == 'wstart':
@@ -668,7 +692,7 @@ class CacheWorld(object):
   def check_backpressure(self):
     """C09 cache side: quiescent, cache below the low watermark => nobody paused."""
     st = self.w.state
-    low = self.settings.CACHE_SIZE_LOW_WATERMARK
+    low = self.low_wm
     if not self.settings.USE_FLOW_CONTROL:
       return
     size = self.cache.size
@@ -844,6 +868,8 @@ class CacheWorld(object):
           exp = ref_create_args(versions_s, versions_a, metric)
           if exp is not None:
             allowed.append(exp)
+      if len(set(repr(a) for a in allowed)) > 1:
+        self.ctx.probe('create_with_two_schema_versions_in_force')
       got = (list(map(tuple, payload[0])) if payload[0] else payload[0], payload[1], payload[2])
       self.ctx.sigs.add('cr:%s' % (got,))
       if allowed and got not in allowed:
